@@ -47,4 +47,7 @@ def run(ctx):
     many = ctx.path("many.ndjson")
     vlib.kvh(["trace", "many", ctx.seed, ctx.rundir, 70000, "oligo"], out=many)
     vlib.validate_trace(ctx, "FactsTrace", many, "70 000 records from a pool of 12: every row judged (ordinals beyond 2^16), mmap and batch writer", "manyo")
+    al = ctx.path("aligned_rows.ndjson")
+    vlib.kvh(["trace", "oligobig", ctx.seed, 0, ctx.rundir], out=al)
+    vlib.validate_trace(ctx, "FactsTrace", al, "20 records of exactly 64 KiB each (every header on a 64 KiB boundary, one on 1 MiB): every row judged, both writers", "obig")
     ctx.exhaustive = False
